@@ -205,7 +205,14 @@ static inline void exc_maybe(void) { if (!g_exc && nondet_bool()) g_exc = 1; }
 
 /* ================================================================== getNextCounter (callbacklist.h:423)
  * epoch-internal contract (no wrap at this call); the wrap-around case is C19's obligation set (-DOB_WRAP) */
-#ifndef OB_WRAP
+#ifdef OB_WRAP_USE
+/* callers proved ACROSS a wrap-around (C19): what the -DOB_WRAP obligations establish for getNextCounter as a whole */
+#define CONTRACT_CL_getNextCounter \
+  __CPROVER_requires(__CPROVER_is_fresh(self, sizeof(CL)) && UNLOCKED(self)) \
+  __CPROVER_assigns(self->currentCounter) \
+  __CPROVER_ensures(__CPROVER_return_value != 0 && __CPROVER_return_value == self->currentCounter) \
+  __CPROVER_ensures(__CPROVER_old(self->currentCounter) == 0xffffffffu ? self->currentCounter == 1 : self->currentCounter == __CPROVER_old(self->currentCounter) + 1)
+#elif !defined(OB_WRAP)
 #define CONTRACT_CL_getNextCounter \
   __CPROVER_requires(__CPROVER_is_fresh(self, sizeof(CL)) && NOWRAP(self)) \
   __CPROVER_requires(UNLOCKED(self))   /* on wrap-around it locks the list mutex itself (std::mutex is not recursive): never call it with the mutex held */ \
@@ -718,11 +725,19 @@ static inline _Bool reset_inv(const Node *c, const Node *W)      /* nodes the cu
   __CPROVER_ensures(__CPROVER_return_value == 0 ==> (CF_D->previous == __CPROVER_old(*node) && CF_F == __CPROVER_old((*fromNode)->next))) \
   __CPROVER_ensures(__CPROVER_return_value == 0 ==> (g_u0 ? (CF_D->previous->next == CF_D && CF_D->previous->rank < CF_D->rank && self->head == __CPROVER_old(self->head)) : self->head == CF_D)) \
   __CPROVER_ensures(__CPROVER_return_value == 0 ==> (self->head != NULL && (CF_F != NULL ==> CF_D->rank < CF_F->rank)))
+/* (-DOB_WRAP_USE: also when the generation counter wraps at this very call: the copies never get the "removed" mark 0) */
+#ifdef OB_WRAP_USE
+#define CLONE_NOWRAP(s) 1
+#define CLONE_STEP(s) (__CPROVER_old((s)->currentCounter) == 0xffffffffu ? (s)->currentCounter == 1 : (s)->currentCounter == __CPROVER_old((s)->currentCounter) + 1)
+#else
+#define CLONE_NOWRAP(s) NOWRAP(s)
+#define CLONE_STEP(s) ((s)->currentCounter == __CPROVER_old((s)->currentCounter) + 1)
+#endif
 #define CONTRACT_CL_cloneFrom__loop0_pre \
   __CPROVER_requires(__CPROVER_is_fresh(self, sizeof(CL)) && FRESH_LOCALS_CL_cloneFrom__loop0) \
-  __CPROVER_requires(UNLOCKED(self) && NOWRAP(self) && self->head == NULL) \
+  __CPROVER_requires(UNLOCKED(self) && CLONE_NOWRAP(self) && self->head == NULL) \
   __CPROVER_assigns(LOCALS_CL_cloneFrom__loop0, self->currentCounter) \
-  __CPROVER_ensures(__CPROVER_return_value == 0 && *fromNode == __CPROVER_old(*fromHead) && *node == NULL && self->currentCounter == __CPROVER_old(self->currentCounter) + 1 && self->currentCounter != 0 && self->head == NULL && *counter == self->currentCounter)
+  __CPROVER_ensures(__CPROVER_return_value == 0 && *fromNode == __CPROVER_old(*fromHead) && *node == NULL && CLONE_STEP(self) && self->currentCounter != 0 && self->head == NULL && *counter == self->currentCounter)
 #define CONTRACT_CL_cloneFrom__loop0_epi \
   __CPROVER_requires(__CPROVER_is_fresh(self, sizeof(CL)) && FRESH_LOCALS_CL_cloneFrom__loop0) \
   __CPROVER_assigns(self->tail) \
